@@ -40,13 +40,13 @@ type Val struct {
 	Set []Val
 }
 
-func Int(i int64) Val       { return Val{K: KInt, I: i} }
-func Str(s string) Val      { return Val{K: KStr, S: s} }
-func Date(d uint64) Val     { return Val{K: KDate, D: d} }
-func Bytes(b []byte) Val    { return Val{K: KBytes, B: b} }
-func Bool(b bool) Val       { return Val{K: KBool, Bo: b} }
-func SetOf(vs ...Val) Val   { return Val{K: KSet, Set: vs} }
-func Var(name string) Val   { return Val{K: KVar, S: name} }
+func Int(i int64) Val     { return Val{K: KInt, I: i} }
+func Str(s string) Val    { return Val{K: KStr, S: s} }
+func Date(d uint64) Val   { return Val{K: KDate, D: d} }
+func Bytes(b []byte) Val  { return Val{K: KBytes, B: b} }
+func Bool(b bool) Val     { return Val{K: KBool, Bo: b} }
+func SetOf(vs ...Val) Val { return Val{K: KSet, Set: vs} }
+func Var(name string) Val { return Val{K: KVar, S: name} }
 
 // Key is a canonical rendering: equal values (sets as sets) have equal keys.
 func (v Val) Key() string {
